@@ -810,3 +810,72 @@ func TestC06Aliasing(t *testing.T) {
 	}
 	run.Exhaustive()
 }
+
+// TestC06NoMap: the selected operand is evaluated like any other expression -
+// also when it binds a local and the runner has no data map yet.
+func TestC06NoMap(t *testing.T) {
+	type nm struct {
+		f    []string // formulas evaluated one after the other on one runner
+		want string   // the last result, as a number or string
+	}
+	var cases []nm
+	for _, sel := range []struct{ form, val string }{
+		{"(true ? ($x = 5) : ($x = 7))", "5"}, {"(false ? ($x = 5) : ($x = 7))", "7"}, {"(1 && ($x = 5))", "5"}, {"(0 || ($x = 5))", "5"}, {"(null ?? ($x = 5))", "5"},
+		{"(true ? (false ? 0 : ($x = 5)) : 1)", "5"}, {"[true ? ($x = 5) : 0]", "5"}, {"('' || (0 || ($x = 5)))", "5"}, {"(1 ? ($x = 5) : 0) + 1", "5"},
+	} {
+		cases = append(cases,
+			nm{[]string{sel.form + ", $x"}, sel.val},
+			nm{[]string{sel.form, "$x"}, sel.val},
+			nm{[]string{sel.form + ", [$x, this.$x]", "[this.$x, $x]"}, sel.val},
+			nm{[]string{"missing ?? 0", sel.form, "$x + 0"}, sel.val})
+	}
+	run := h.Begin("C06", "no-map", fmt.Sprintf("enumerated: %d histories on a runner that never got a data map, in which the first binding of a local happens inside the operand a selection operator (?:, &&, ||, ??, nested, inside a list) selects, read back in the same formula and in the next; oracle: the local holds the bound value; every case non-trivial", len(cases)))
+	defer run.End(t)
+	for i, c := range cases {
+		if !h.Mine(int64(i)) || run.NViolations() >= 3 {
+			continue
+		}
+		run.Count(true, "")
+		if i%7 == 0 {
+			run.Sample("no-map", strings.Join(c.f, " ;; "))
+		}
+		if msg := checkNoMap(c.f, c.want); msg != "" {
+			run.Fail("c06-nomap", append(append([]string{}, c.f...), c.want), msg)
+		}
+	}
+	run.Exhaustive()
+}
+
+func checkNoMap(fs []string, want string) string {
+	r := formula.NewRunner()
+	var out obs.EvalOut
+	for _, f := range fs {
+		p := obs.Parse([]byte(f))
+		if !p.OK() {
+			return fmt.Sprintf("HARNESS: %q does not parse: %v", f, p.Err)
+		}
+		out = obs.Eval(r, context.Background(), p.Src.Expression)
+		if out.Panic != nil || out.Err != nil {
+			return fmt.Sprintf("%q of %q on a runner without a data map -> %s", f, fs, out)
+		}
+	}
+	got := out.Val
+	if arr, ok := got.([]interface{}); ok && len(arr) > 0 {
+		got = arr[0]
+	}
+	w, _ := ref.RatOf(want)
+	if g, ok := obs.Rat(got); !ok || g.Cmp(w) != 0 {
+		return fmt.Sprintf("%q on a runner without a data map: the last formula gives %s, want %s (the value the selected operand bound)", fs, out, want)
+	}
+	return ""
+}
+
+func init() {
+	h.RegisterReplay("c06-nomap", func(raw json.RawMessage) string {
+		c, err := h.Decode[[]string](raw)
+		if err != nil || len(c) < 2 {
+			return "bad replay"
+		}
+		return checkNoMap(c[:len(c)-1], c[len(c)-1])
+	})
+}
